@@ -109,7 +109,7 @@ func r18_1(c *Ctx, rule string) {
 		eng.Instrs(fn, func(in ssa.Instruction) {
 			if mu, ok := in.(*ssa.MapUpdate); ok && isMark(in) {
 				marks++
-				c.R.Check(mu.Key == l.Index, rule, fmt.Sprintf("%s/mark#%d-same-key", base, marks), c.pos(mu), "marked under the key that is tested", "the path recorded as resolved is not the path that is tested for membership")
+				c.R.Check(mu.Key == l.Index || eng.SameValue(eng.Resolve(mu.Key), eng.Resolve(l.Index)), rule, fmt.Sprintf("%s/mark#%d-same-key", base, marks), c.pos(mu), "marked under the key that is tested", "the path recorded as resolved is not the path that is tested for membership")
 			}
 		})
 	}
